@@ -191,9 +191,8 @@ func c13Want(st c13State, b int) string {
 
 func c13Symbolic(name string) c13State {
 	var st c13State
-	for b := range c13Branches {
-		st[0][b] = verifrt.Concretize(verifrt.IntRange(name, 0, 2))
-	}
+	st[0][0] = verifrt.Concretize(verifrt.IntRange(name, 0, 2))
+	st[0][1] = verifrt.Concretize(verifrt.IntRange(name, 0, verifrt.Param("devContents", 1, 2)))
 	return st
 }
 
@@ -205,7 +204,8 @@ var c13Second = [3][3][2]int{
 	{{1, 2}, {0, 0}, {1, 0}},
 }
 
-// H_C13_delta: a full build followed by 2 delta builds. The first path is in
+// H_C13_delta: a full build followed by a delta build and then by another delta build or a full
+// re-index. The first path is in
 // an arbitrary state (absent or one of two contents on each of two branches) before and after every
 // run; the second path follows one fixed history (quick) / one of three (thorough).
 // After every run, for each branch, a search restricted to the branch finds exactly one document
@@ -222,9 +222,15 @@ func H_C13_delta() {
 	for run := 1; run <= runs; run++ {
 		next := c13Symbolic("next")
 		next[1] = second[run]
-		docs, tombstones := c13Delta(st, next)
-		err := c13Build(run, true, docs, tombstones)
-		verifrt.Assert(err == nil, "the delta build succeeds")
+		// the last run is symbolically a delta build or a full re-index (what a delta build falls
+		// back to when the branch set or the options changed)
+		if run == runs && verifrt.Bool("lastRunIsFull") {
+			verifrt.Assert(c13Build(run, false, c13Full(next), nil) == nil, "the full re-index succeeds")
+		} else {
+			docs, tombstones := c13Delta(st, next)
+			err := c13Build(run, true, docs, tombstones)
+			verifrt.Assert(err == nil, "the delta build succeeds")
+		}
 		st = next
 		views := c13Views()
 		for b, bn := range c13Branches {
@@ -233,7 +239,7 @@ func H_C13_delta() {
 			if got != want {
 				verifrt.Debug("branch "+bn, "got ["+got+"] want ["+want+"]")
 			}
-			verifrt.Assert(got == want, "after a delta build a branch-restricted search finds exactly the branch head's files, one document each, with the head content")
+			verifrt.Assert(got == want, "after every build a branch-restricted search finds exactly the branch head's files, one document each, with the head content")
 		}
 	}
 	verifrt.Reach("returned")
